@@ -325,6 +325,13 @@ def wl_join(ctx, rng, case):
             if tot > 0:
                 B.append(("remove", rng.choice(keys + ["never-added"]), tot))  # the argument's total nets to exactly zero
                 ctx.count("join_argument_with_zero_total_but_nonzero_cells")
+    near_limit = arbitrary and rng.random() < 0.3
+    if near_limit:
+        # the receiver holds counters ONE SHORT of a 32-bit limit (not pinned: -2^31+1, 2^31-2) and the argument adds a little to the same
+        # key; cases in which a counter of any of the three sketches reaches a limit on the way are outside the statement and are dropped
+        kx = rng.choice(keys)
+        A.insert(0, ("remove", kx, 2**31 - 1) if rng.random() < 0.6 else ("add", kx, 2**31 - 2))
+        B.append(("add", kx, rng.randint(1, 9)) if A[0][0] == "remove" else ("remove", kx, rng.randint(1, 9)))
     case.desc = {"kind": "join", "cls": cls_name, "other": other_cls.__name__, "width": width, "depth": depth, "hash": hname, "A": A, "B": B}
     sA = cls(width=width, depth=depth, **bl.kw_hash(hf))
     sB = other_cls(width=width, depth=depth, **bl.kw_hash(hf))
@@ -332,6 +339,22 @@ def wl_join(ctx, rng, case):
     apply_stream(sA, A)
     apply_stream(sB, B)
     apply_stream(sAB, A + B)
+    if near_limit:
+        # exact running values of every counter along A, along B and along A then B: a case in which any of them reaches a limit is dropped
+        def reaches_a_limit(stream):
+            run = Counter()
+            for op, kx_, a in stream:
+                for i, h in enumerate(sAB.hashes(kx_)):
+                    c = (h % width) + i * width
+                    run[c] += a if op == "add" else -a
+                    if run[c] <= -2**31 or run[c] >= 2**31 - 1:
+                        return True
+            return False
+
+        if reaches_a_limit(A) or reaches_a_limit(B) or reaches_a_limit(A + B):
+            ctx.count("join_cases_dropped_because_a_counter_reached_a_limit")
+            return
+        ctx.count("joins_with_receiver_counters_one_short_of_a_limit")
     if rng.random() < 0.2:
         sA = cls.frombytes(bytes(sA), **bl.kw_hash(hf))  # receiver / argument loaded from their own exports
         ctx.count("operands_reloaded_before_the_join")
@@ -377,6 +400,9 @@ def wl_join(ctx, rng, case):
         for key in keys:
             ctx.check(sA.check(key) >= cA[key] + cB[key], "estimate after join below the sum of the operands' true counts", key=key, got=sA.check(key), want=cA[key] + cB[key])
     ctx.count("joins_compared")
+    if near_limit:
+        case.nontrivial = True
+        return  # (the chained joins below feed a stream twice: with counters one short of a limit that is past the limit)
     # the receiver of that join becomes the ARGUMENT of further joins: into a fresh sketch (which must then hold both streams) and
     # into a sketch loaded from an export of the first operand's own stream
     total = cls(width=width, depth=depth, **bl.kw_hash(hf))
